@@ -350,6 +350,8 @@ var c14errCases = []struct{ name, src string }{
 	{"two-slots-is-parse-error", `1 | f2(_, _)`},
 	{"safewriter-not-last", `"a" | raw | f1`}, {"safewriter-first-not-last", `unsafe: "a" | f1`}, {"safewriter-first-then-jetfunc", `unsafe: "a" | jf`}, {"safewriter-middle", `"a" | f1 | safeHtml | f1`},
 	{"slot-without-pipe", `f2("a", _)`}, {"slot-without-pipe-jetfunc", `jf(_)`},
+	// a piped value that is no value at all is still the first argument: an invalid argument, not "nothing was piped"
+	{"nil-piped-into-variadic-only", `nil | fvs`}, {"absent-piped-into-variadic-only", `fns.absent | fvs`}, {"nil-piped-into-variadic-with-args", `nil | fvs: "a"`}, {"absent-piped-into-variadic-tail", `fns.absent | fv: 1`},
 	// jet.Funcs with an exact arity (built-in len; user Funcs requiring exactly 0 or 2 arguments) reject surplus arguments in every form
 	{"too-many-jetfunc-len", `len("abc", "de")`}, {"too-many-jetfunc-len-prefix", `len: "abc", "de"`}, {"too-many-jetfunc-len-piped", `"abc" | len: "de"`}, {"too-many-jetfunc-len-slot", `"abc" | len("de", _)`},
 	{"too-many-jetfunc-exact2", `jf2("a", "b", "c")`}, {"too-many-jetfunc-exact2-piped", `"a" | jf2: "b", "c"`}, {"too-few-jetfunc-exact2", `jf2("a")`}, {"too-many-jetfunc-exact0", `1 | jf0`}, {"too-many-jetfunc-exact0-call", `jf0(1)`},
@@ -412,6 +414,12 @@ func c14builtins(c *fw.Ctx, idx int, r *rand.Rand) {
 		{"len-string-multibyte-piped", q("h\u00e9llo\u00a0"+s1) + " | len", fmt.Sprint(len("h\u00e9llo\u00a0" + s1))},
 		{"len-string-invalid-utf8", "len(vbad)", "3"},
 		{"len-slice", "len(vs)", "3"},
+		// isset sees its arguments at the same positions in every call shape
+		{"isset-piped-with-extra-argument", q(s1) + " | isset: vs", "true"},
+		{"isset-piped-with-unset-extra-argument", q(s1) + " | isset: vm.nosuchkey", "false"},
+		{"isset-piped-with-two-extra-arguments", "vs | isset: vm.nosuchkey, vm", "false"},
+		{"isset-piped-unset-with-set-extra-argument", "vm.nosuchkey | isset: vs", "false"},
+		{"isset-plain-two-arguments", "isset(vs, vm.nosuchkey)", "false"},
 		{"map-without-pairs-is-a-fresh-empty-map", "len(map())", "0"},
 		{"len-map", "len(vm)", "2"},
 		{"len-array", "len(varr)", "4"},
